@@ -130,7 +130,10 @@ def run(tier, seed, replay=None):
                     o.swap(d, d2)
                 elif op == 'reparam':
                     a_ = rng.randint(-8, 8) / 2.0
-                    args = [a_, a_ + rng.randint(1, 12) / 2.0, d]
+                    # now and then an empty or reversed interval: the call must raise (a history ends there) -- if it completes,
+                    # the object is checked like any other (start < end)
+                    w_ = rng.choice([0.0, 0.0, -1.5]) if rng.random() < 0.1 else rng.randint(1, 12) / 2.0
+                    args = [a_, a_ + w_, d]
                     o.reparam((args[0], args[1]), direction=d)
                 elif op == 'split_piece':
                     x = b.start() + (b.end() - b.start()) * rng.randint(1, 63) / 64.0
